@@ -52,6 +52,8 @@ def iter_base(t):
         t = t[1]
     if isinstance(t, tuple) and t and t[0] == "call":
         return t
+    if isinstance(t, tuple) and t and t[0] == "param":
+        return t            # a parameter used as the receiver of an Iterator method is itself the sequence
     return None
 
 
@@ -167,12 +169,15 @@ def _filter_predicate(lib, cdef, fallible, value):
 
 def _strip_result(terms):
     """(terms with Ok(..)/`?` wrappers removed, whether any was present)."""
+    from .analysis import is_failure_term
     out = set()
     fallible = False
     for t in terms:
         if t[0] == "agg" and t[1] == "std::result::Result::Ok" and len(t[2]) == 1:
             out |= set(t[2][0])
             fallible = True
+        elif is_failure_term(t):
+            fallible = True     # the failure aborts the construction: it is not an item
         else:
             out.add(t)
     return out, fallible
